@@ -1,6 +1,7 @@
 import CGV.Props.C13
 import CGV.Props.C13Chain
 import CGV.Props.C13Tokens
+import CGV.Props.C13Lead
 #print axioms CGV.C13.C13_descriptors_after_atom
 #print axioms CGV.C13.C13_descriptors_at_end
 #print axioms CGV.stripAux_descs
@@ -18,3 +19,6 @@ import CGV.Props.C13Tokens
 #print axioms CGV.C13.anode_step
 #print axioms CGV.C13.atom2_step
 #print axioms CGV.C13.slash_step
+#print axioms CGV.C13.lead_step
+#print axioms CGV.C13.stripAux_leads
+#print axioms CGV.C13.C13_leading
